@@ -369,6 +369,32 @@ theorem C24_handover_on_unregister (s : St) (w : Nat) (data : String) (k : Kind)
             · subst hr
               exact findOwn_eraseOwn_unique h owns2 huo
 
+/-- C24 (hand-over when the owner's unregister / dispose is NOT stored): a not-alive change that passes the ownership filter
+    (it comes from the owner or a stronger writer) releases the instance whatever happens to the change afterwards — dropped by
+    the time-based filter, rejected by a resource limit, or stored (seeded change C24_d tied the release to the storing) -/
+theorem C24_handover_even_if_not_stored (s : St) (w : Nat) (data : String) (k : Kind) (h : Nat) (sts : Option Nat)
+    (rts : Nat) (hk : k.isAliveKind = false) (hu : OwnUnique s.owns)
+    (insts1 : List Inst) (ht : touchInst s.insts h k rts = some insts1)
+    (owns2 : List Own) (hof : ownershipFilter { s with insts := insts1 } w h rts = some owns2) :
+    findOwn h (addChange s w data k h sts rts).1.owns = none := by
+  have huo : OwnUnique owns2 := ownershipFilter_unique { s with insts := insts1 } w h rts owns2 hu hof
+  have he := findOwn_eraseOwn_unique h owns2 huo
+  unfold addChange
+  simp only [ht, hof]
+  unfold afterOwnership
+  simp only [mkSample, hk, Bool.false_eq_true, if_false]
+  split
+  · exact he
+  · unfold finishAdd
+    simp only [hk, Bool.false_eq_true, if_false]
+    split
+    · exact he
+    · split
+      · exact he
+      · split
+        · exact he
+        · exact he
+
 theorem findOwn_dropOwner (h w : Nat) (l : List Own) (o : Own) (ho : findOwn h (dropOwner w l) = some o) :
     o.owner ≠ w := by
   induction l with
